@@ -776,6 +776,8 @@ func (r *rewriter) selectStmt(s *ast.SelectStmt, points bool) ast.Stmt {
 	if hasDefault {
 		def = "true"
 	}
+	// a select whose arms all return is a terminating statement; a switch is one only with a default arm
+	sw.Body.List = append(sw.Body.List, &ast.CaseClause{List: nil, Body: []ast.Stmt{&ast.ExprStmt{X: call(ast.NewIdent("panic"), &ast.BasicLit{Kind: token.STRING, Value: strconv.Quote("vsyncrt: select fired an arm it does not have")})}}})
 	sw.Tag = call(rt("Select"), append([]ast.Expr{ast.NewIdent(def)}, cases...)...)
 	return &ast.BlockStmt{List: append(pre, sw)}
 }
